@@ -1969,7 +1969,16 @@ func (rn *Runner) Run() {
 	if f := sc.Fault; f != nil && first != nil {
 		switch f.Kind {
 		case "sink":
+			// every byte offset - for renderings of more than 8 KiB (bodies far beyond any copy buffer) every 211th and the
+			// offsets around multiples of 32 KiB
+			step := 1
+			if len(first) > 8192 {
+				step = 211
+			}
 			for k := 0; k < len(first); k++ {
+				if step > 1 && k%step != 0 && (k%32768 > 2 && k%32768 < 32766) {
+					continue
+				}
 				fb, err := Build(sc.Prog, seed, 0, "", rn.TmpDir)
 				if err != nil {
 					rn.Infra = err
